@@ -32,7 +32,7 @@ TRUSTED_BASE = [
     "Lean compiler, for running the model in the driver (correspondence only)",
     "hand-written model DnsModel/*.lean tied to /repo by differential execution on generated cases (checked, not proved)",
     "Generated/Constants.lean and Generated/FnTable.lean regenerated from /repo on every run",
-    "rs2lean.py (Rust-subset -> Lean translator, syntax-directed): Generated/Tr{Header,Name,Sector,Reader,Text,Rename,Counts}.lean are rewritten from /repo's source text on every run; Tie/*.lean prove each translated function equal to the model function the theorems are about (65 functions: header getters/setters, the whole validator DNSSector::new/parse/parse_question/parse_rr/parse_opt with cursor primitives and loaders, both name validators, the trusted name readers of compress.rs incl. raw_name_to_str, the dictionary's case-insensitive comparison, copy_raw_name_from_str, Renamer::replace_raw, rrcount_inc/rrcount_dec/insertion_offset with the set_*count writers, ParsedPacket::insert_rr - whose calls to Compress::uncompress and recompute go to the model's, TrRecompute.lean)",
+    "rs2lean.py (Rust-subset -> Lean translator, syntax-directed): Generated/Tr{Header,Name,Sector,Reader,Text,Rename,Counts}.lean are rewritten from /repo's source text on every run; Tie/*.lean prove each translated function equal to the model function the theorems are about (66 functions: header getters/setters, the whole validator DNSSector::new/parse/parse_question/parse_rr/parse_opt with cursor primitives and loaders, both name validators, the trusted name readers of compress.rs incl. raw_name_to_str, the dictionary's case-insensitive comparison, copy_raw_name_from_str, Renamer::replace_raw, rrcount_inc/rrcount_dec/insertion_offset with the set_*count writers, ParsedPacket::recompute and ParsedPacket::insert_rr - whose call to Compress::uncompress goes to the model's uncompress)",
     "harness (Rust), generators, checklib.py",
     "safe-Rust memory safety; usize modelled as Nat; debug overflow/underflow semantics = panic",
 ]
